@@ -52,10 +52,16 @@ def base_flags(variant, opt=None):
     return ["g++", "-std=c++17", opt or OPT[variant], "-g1", "-w"] + SAN[variant]
 
 
-def device_cmd(mode, src, obj, variant="asan", extra=()):
-    """-x c++ because OpenCL/Metal sources may carry any extension."""
+WORKGROUP_FLAGS = ["-DGPUEMU_WORKGROUP"]
+
+
+def device_cmd(mode, src, obj, variant="asan", extra=(), workgroup=False):
+    """-x c++ because OpenCL/Metal sources may carry any extension.
+    workgroup=True: work-group semantics (gpuemu/workgroup.hpp): the items of a group run as fibers,
+    barriers synchronise, __shared__/__local/threadgroup/SYCL group-local memory exist, atomics exist."""
     return (base_flags(variant) + ["-I" + HERE, "-I" + os.path.join(HERE, "include")]
-            + FORCE_INCLUDE[mode] + list(extra) + ["-x", "c++", "-c", src, "-o", obj])
+            + FORCE_INCLUDE[mode] + (WORKGROUP_FLAGS if workgroup else []) + list(extra)
+            + ["-x", "c++", "-c", src, "-o", obj])
 
 
 def host_flags(variant, extra=()):
@@ -127,9 +133,52 @@ def selftest(variant, workdir, env=None):
     return ok, p.stdout[-4000:]
 
 
+def selftest_workgroup(variant, workdir, env=None):
+    """Work-group extension (fibers, barrier, group-shared memory, atomics): hand-written kernels of
+    selftest/st_wg_*.cpp with known results.  With variant "asan" additionally three death tests: an
+    access one element past a __shared__ / __local / SYCL group-local array must be reported by ASan.
+    Needs no libocca.  Returns (ok, output)."""
+    os.makedirs(workdir, exist_ok=True)
+    st = os.path.join(HERE, "selftest")
+    jobs = [("cuda", "st_wg_cuda.cpp"), ("hip", "st_wg_hip.cpp"), ("opencl", "st_wg_opencl.cpp"),
+            ("metal", "st_wg_metal.cpp"), ("dpcpp", "st_wg_sycl.cpp")]
+    objs, procs = [], []
+    for mode, f in jobs:
+        obj = os.path.join(workdir, f + ".o")
+        objs.append(obj)
+        procs.append((f, subprocess.Popen(device_cmd(mode, os.path.join(st, f), obj, variant, extra=["-I" + st], workgroup=True),
+                                          stdout=subprocess.PIPE, stderr=subprocess.STDOUT, text=True)))
+    hobj = os.path.join(workdir, "st_wg_host.o")
+    procs.append(("st_wg_host.cpp", subprocess.Popen(
+        base_flags(variant) + ["-I" + HERE, "-c", os.path.join(st, "st_wg_host.cpp"), "-o", hobj],
+        stdout=subprocess.PIPE, stderr=subprocess.STDOUT, text=True)))
+    for f, p in procs:
+        out, _ = p.communicate()
+        if p.returncode != 0:
+            return False, "compile of %s failed:\n%s" % (f, out[-4000:])
+    exe = os.path.join(workdir, "gpuemu_wg_selftest")
+    p = _run(link_cmd(variant, objs + [hobj], exe, with_occa=False))
+    if p.returncode != 0:
+        return False, "link failed:\n" + p.stdout[-4000:]
+    e = dict(env if env is not None else os.environ)
+    p = _run([exe], env=e, cwd=workdir)
+    text = p.stdout[-4000:]
+    ok = (p.returncode == 0) and ("GPUEMU-WG-SELFTEST PASS" in p.stdout)
+    if ok and variant == "asan":
+        for what in ("oob-cuda", "oob-opencl", "oob-sycl"):
+            q = _run([exe, what], env=e, cwd=workdir)
+            good = (q.returncode != 0 and "OOB-PRELUDE-OK" in q.stdout and "OOB-NOT-DETECTED" not in q.stdout
+                    and "AddressSanitizer" in q.stdout and "buffer-overflow" in q.stdout)
+            text += "%s: %s\n" % (what, "detected by ASan" if good else "NOT DETECTED\n" + q.stdout[-1500:])
+            ok = ok and good
+    return ok, text
+
+
 if __name__ == "__main__":
     variant = sys.argv[1] if len(sys.argv) > 1 else "asan"
     wd = os.path.join(BUILD, "scratch", "gpuemu-selftest")
     ok, out = selftest(variant, wd)
     print(out)
-    sys.exit(0 if ok else 1)
+    ok2, out2 = selftest_workgroup(variant, os.path.join(wd, "wg"))
+    print(out2)
+    sys.exit(0 if (ok and ok2) else 1)
